@@ -45,10 +45,11 @@ def tailStart (decay : Nat) : Nat → Nat → Nat → Nat → Option (Nat × Nat
   | 0, _, _, _ => none
   | fuel + 1, j, l, f => if f = 0 then some (j, l) else tailStart decay fuel (j + 1) (l + f * 2 + 2) (f * 2 * decay / 32768)
 
-/-- Decidable form of `∃ T, Par fs decay T` (at most 64 decaying magnitudes). -/
+/-- Decidable form of `∃ T, Par fs decay T` (the fuel 32768 is never exhausted when the answer is `true`: `L` grows by
+    at least 2 per magnitude and must stay ≤ 32766). -/
 def LaplaceOk (fs decay : Nat) : Bool :=
   decide (0 < fs) &&
-  match tailStart decay 64 0 fs (getFreq1 fs decay) with
+  match tailStart decay 32768 0 fs (getFreq1 fs decay) with
   | some (_, l) => decide (l ≤ 32766)
   | none => false
 
@@ -78,7 +79,7 @@ theorem par_of_ok {fs decay : Nat} (h : LaplaceOk fs decay = true) : ∃ T, Par 
   obtain ⟨h0, h1⟩ := h
   split at h1
   · rename_i T l heq
-    obtain ⟨_, h2, h3, h4⟩ := tailStart_spec fs decay 64 0 T l heq
+    obtain ⟨_, h2, h3, h4⟩ := tailStart_spec fs decay 32768 0 T l heq
     simp only [decide_eq_true_eq] at h1
     exact ⟨T, h0, h3, fun i hi => h4 i (Nat.zero_le _) hi, by omega⟩
   · cases h1
